@@ -160,6 +160,25 @@ def rescale(case, ctx):
         if np.max(np.abs(I1 - I0)) > 0.03 * np.max(I0):
             raise Violation("C17.image", f"propagated image changed by {np.max(np.abs(I1 - I0)) / np.max(I0) * 100:.2f} % "
                                          f"of its peak after rescale(s={s_eff:.4g})")
+    # aftermath: the rescaled plane is an independent object - working on it in place (fitting its tilt, editing its
+    # arrays) leaves the original untouched, and the other way round
+    p_state = (snapshot(p), len(p.tilt))
+    with lentil_call("C17.aftermath", "in-place work on the rescaled plane"):
+        q.fit_tilt(inplace=True)
+        if np.ndim(q.opd) == 2 and q.opd.flags.writeable:
+            q.opd[0, 0] += 1e-9
+        if np.ndim(q.amplitude) == 2 and q.amplitude.flags.writeable:
+            q.amplitude[-1, -1] *= 0.5
+    now = (snapshot(p), len(p.tilt))
+    if now[1] != p_state[1] or any(not np.array_equal(a, b) for a, b in zip(now[0][:3], p_state[0][:3])):
+        raise Violation("C17.original_mutated", f"in-place work on the rescaled plane changed the original (tilt entries "
+                                                f"{p_state[1]} -> {now[1]})")
+    nq = len(q.tilt)
+    with lentil_call("C17.aftermath", "in-place work on the original plane"):
+        p.fit_tilt(inplace=True)
+    if len(q.tilt) != nq:
+        raise Violation("C17.original_mutated", "fitting tilt on the original plane in place changed the rescaled plane's "
+                                                "tilt list")
 
 
 @st.composite
